@@ -31,7 +31,8 @@ RULE = ("one run = one version-1 certificate file and one root key, judged by th
         "altered at rest (message / signature / tweak bit flip, signatures swapped, element re-signed by "
         "an unrelated key, re-parented, target added / removed), wrong root (other key, corrupted point), "
         "dishonest issuer (validly signed trees of depth 1..4 over {device, attestation, ui, signer} with "
-        "shared ancestors, missing / wrong tweaks, an element carrying the root's reserved name); the same "
+        "shared ancestors, missing / wrong tweaks, device / attestation messages of the shapes the value "
+        "extractors distinguish, an element carrying the root's reserved name); the same "
         "certificate object is then asked again 0..2 times under other roots; non-trivial = a certificate "
         "file existed and loaded "
         "or was refused by both sides; distinct = (artefact class, alteration kind, element, verdict map)")
@@ -127,9 +128,15 @@ def dishonest_certificate(ch):
         own = Key(scalar(b"diskey" + nm.encode() + ch.bytes(4, "dis.key")))
         keys[nm] = own
         if nm == "device":
-            msg = ch.bytes(ch.pick([9, 1, 0], "dis.hdr"), "dis.hdrb") + own.pub65
+            # the key is what the last 65 bytes of the message say (a shorter message is the key itself)
+            msg = ch.pick([ch.bytes(ch.pick([9, 1, 0], "dis.hdr"), "dis.hdrb") + own.pub65, own.pub33,
+                           bytes([ch.draw(256, "dis.dev33")]) + own.pub33], "dis.devmsg")
         elif nm == "attestation":
-            msg = b"\xff" + own.pub65
+            # the key is everything after the first byte: compressed keys are keys, a longer message
+            # that merely ends in a key is not one
+            msg = ch.weighted([(4, b"\xff" + own.pub65), (1, b"\xff" + own.pub33),
+                               (1, b"\xff\x00" + own.pub65),
+                               (1, b"\xff" + own.pub65 + b"\x00")], "dis.attmsg")
         else:
             msg = ch.pick([own.pub65, own.pub33, b"HSM:UI:5.4" + ch.bytes(40, "dis.uimsg")],
                           "dis.leafmsg")
